@@ -298,7 +298,8 @@ def verus_phase(pid, P, tier, seed, t0):
                                        drift_tokens=f['drift_tokens']) for f in verified_fns],
         contracts_assumed_here_proved_elsewhere=[f['key'] for f in stub_fns],
         rewrites_applied=em.rewrites,
-        anchor_drift_tokens=em.drift, hints_lost=em.lost,
+        # drift of the items verified in this run (assumed-here stubs have an empty body in their contract copy by construction)
+        anchor_drift_tokens=sum(f['drift_tokens'] for f in em.functions if f['verified'] and f.get('stub') != 'always'), hints_lost=em.lost,
         clause_counts=count_clauses(text),
         assumption_scan=scan,
         slowest_functions=[dict(function=f['function'], ms=f['time'], rlimit=f.get('rlimit')) for f in slow],
